@@ -400,6 +400,43 @@ pub fn run(ctx: &Ctx) -> (Acc, Report) {
             m.insert("k".to_owned(), sk.clone());
             renderings.push((format!("serde[{class}](map of SecretKey)"), lossy(crate::recser::record(&m, human))));
         }
+        // the way in: documents that carry the secret are read by every kind of deserializer (borrowing text, text with
+        // escapes, bytes, an io::Read, an owned Value); whatever comes out - the value's Debug or the error - must not show it
+        {
+            #[derive(serde::Deserialize, Debug)]
+            #[allow(dead_code)]
+            struct HolderIn {
+                name: String,
+                key: SecretKey,
+                maybe: Option<SecretKey>,
+            }
+            let plain = serde_json::to_string(SK).unwrap();
+            let escaped = plain.replace('/', "\\/").replacen('E', "\\u0045", 1);
+            for (spelling, lit) in [("plain", plain.clone()), ("with-escapes", escaped.clone())] {
+                let doc_key = lit.clone();
+                let doc_vec = format!("[{lit},{lit}]");
+                let doc_holder = format!("{{\"name\":\"n\",\"key\":{lit},\"maybe\":{lit}}}");
+                let doc_wrong_sibling = format!("{{\"name\":5,\"key\":{lit},\"maybe\":{lit}}}");
+                let doc_trailing = format!("{{\"key\":{lit},\"name\":\"n\",\"maybe\":{lit}}} trailing");
+                let show = |r: Result<String, String>| r.unwrap_or_else(|e| format!("error: {e}"));
+                macro_rules! all_ways {
+                    ($ty:ty, $what:expr, $doc:expr) => {{
+                        let doc: &str = $doc;
+                        renderings.push((format!("deserialize[from_str,{spelling}]({})", $what), show(serde_json::from_str::<$ty>(doc).map(|v| format!("{v:?}")).map_err(|e| e.to_string()))));
+                        renderings.push((format!("deserialize[from_slice,{spelling}]({})", $what), show(serde_json::from_slice::<$ty>(doc.as_bytes()).map(|v| format!("{v:?}")).map_err(|e| e.to_string()))));
+                        renderings.push((format!("deserialize[from_reader,{spelling}]({})", $what), show(serde_json::from_reader::<_, $ty>(std::io::Cursor::new(doc.as_bytes())).map(|v| format!("{v:?}")).map_err(|e| e.to_string()))));
+                        if let Ok(val) = serde_json::from_str::<serde_json::Value>(doc) {
+                            renderings.push((format!("deserialize[from_value,{spelling}]({})", $what), show(serde_json::from_value::<$ty>(val).map(|v| format!("{v:?}")).map_err(|e| e.to_string()))));
+                        }
+                    }};
+                }
+                all_ways!(SecretKey, "SecretKey", &doc_key);
+                all_ways!(Vec<SecretKey>, "Vec<SecretKey>", &doc_vec);
+                all_ways!(HolderIn, "struct holding a SecretKey", &doc_holder);
+                all_ways!(HolderIn, "struct holding a SecretKey, a sibling of the wrong type", &doc_wrong_sibling);
+                all_ways!(HolderIn, "struct holding a SecretKey, trailing garbage", &doc_trailing);
+            }
+        }
         for d in driver::drivers() {
             renderings.push((format!("Debug(S3Request<{}Input>)", d.name()), d.request_debug_with_credentials(AK, SK)));
         }
